@@ -10,7 +10,10 @@ TECHNIQUE = ("Coq: client and server endpoint models (abstract message alphabet,
              "predicate written from the property text; proofs of the key-block layout, of mirrored read/write keys and of pHash = "
              "P_hash for all inputs; models tied to /repo by real loopback connections (gmtls<->gmtls, gmtls<->Go crypto/tls both ways) "
              "with both ends' ConnectionState, exporters, errors and 0..200 KiB payloads in random fragments; GMSSL wire captures are "
-             "decoded by the extracted Coq specifications (SM3 -> HMAC -> P_hash -> key block; SM4-CBC+HMAC-SM3 and SM4-GCM records)")
+             "decoded by the extracted Coq specifications (SM3 -> HMAC -> P_hash -> key block; SM4-CBC+HMAC-SM3 and SM4-GCM records); "
+             "ExportKeyingMaterial is evaluated on both ends over a grid of labels, contexts (absent, EMPTY, 1, 32, 300 bytes) and "
+             "lengths and recomputed from the key-logged master secret by python (RFC 5705 over P_SM3 / P_SHA256 / P_SHA384 / MD5-SHA1) "
+             "and, for GMSSL, by the extracted model of ekmFromMasterSecret")
 LEVEL_TEXT = ("Theorems in Coq (Props/C06.v): for every configuration of the product server mode {GMSSL, auto, TLS} x client {GM, TLS 1.0, "
               "1.1, 1.2} x 11 client / 7 server suite lists from the generated tables x server preference x ClientAuth (5) x client "
               "certificate {none, trusted, forged issuer} x certificates {static, callbacks} x tickets {on, off} x ClientCAs {holds the "
@@ -22,7 +25,9 @@ LEVEL_TEXT = ("Theorems in Coq (Props/C06.v): for every configuration of the pro
               "PreferServerCipherSuites, else the client's) that the other side supports; the key block is cut as "
               "clientMAC|serverMAC|clientKey|serverKey|clientIV|serverIV with the generated lengths and installed mirrored; prf12/pHash "
               "equals P_hash (RFC 5246 s.5 / GM/T 0024) for every secret, label, seed and length, instantiated with the HMAC-SM3 "
-              "specification for GMSSL; Conn.Write/writeRecordLocked/Conn.Read deliver every sequence of writes in order and unmodified "
+              "specification for GMSSL; the model of ekmFromMasterSecret (context = absent or a possibly EMPTY byte string) is RFC 5705 s.4 "
+              "for every unreserved label, context below 2^16 bytes and length - an empty context contributes its two zero length bytes, "
+              "an absent one nothing, and different contexts give different seeds; Conn.Write/writeRecordLocked/Conn.Read deliver every sequence of writes in order and unmodified "
               "for all write sizes, record-size schedules, the 1/n-1 split and all read buffer sizes, relative to the per-record "
               "round trip of the record protection. Every sampled configuration is run on "
               "real endpoints and compared with the model; payloads are checked byte for byte; TLS 1.0-1.2 bytes are accepted and "
@@ -63,7 +68,10 @@ RULE = ("seeded generator (VERIF_SEED): the completing matrix - each GMSSL suite
         "forged issuer x full/empty ClientCAs) for GMSSL-only, TLS-only and auto-switch; a greedy pairwise cover of the 12-dimensional case "
         "space (the 10 configuration dimensions + connections per client 1..3 + closing side); 130 (thorough 2 500) random "
         "configurations filtered to plausible ones plus (thorough) 3 000 uniform ones; 60 (thorough 1 200) interoperation runs with crypto/tls "
-        "as server or client; 6 (thorough 48) captured GMSSL connections for the independent decoder. Payload sizes 0, 1..40, 16383..16385, "
+        "as server or client; 6 (thorough 48) captured GMSSL connections for the independent decoder; every completing connection "
+        "evaluates ExportKeyingMaterial on both ends over 3 labels (1, 22, 70 bytes) x contexts {nil, []byte{}, 1, 32, 300 bytes} x lengths "
+        "{1, 32, 33, 100} (ends compared, crypto/tls being one end in the interoperation rows), and up to 6 (GMSSL 24; thorough 50 / 200) "
+        "connections per version and suite become K cases whose 60 exports are recomputed independently. Payload sizes 0, 1..40, 16383..16385, "
         "32768, up to 64 KiB, 200 KiB; fragments 1, 1..64, 16384, 16385..56 KiB, 1..9000 bytes. Non-trivial = completing or policy-relevant "
         "configuration (all are); distinct = distinct case text")
 
@@ -160,8 +168,95 @@ def _digest(b):
     return "%d:%d:%d:%s" % (len(b), s1, s2, b[:16].hex() or "-")
 
 
+# ---- exported keying material, computed here from RFC 5705 section 4 / RFC 5246 section 5 / RFC 2246 section 5 /
+# GM/T 0024 (P_SM3) with the hash functions of python's hashlib (OpenSSL) - nothing of /repo, nothing of Go.
+# The grid is the driver's: every label x context x length, concatenated; contexts: absent, EMPTY, 1, 32, 300 bytes.
+EKM_LABELS = [b"a", b"EXPERIMENTAL verif c06", b"EXPORTER-verif-c06-" + b"x" * 51]
+EKM_CONTEXTS = [None, b"", b"\x5a", bytes((i * 3 + 1) & 255 for i in range(32)), bytes((i * 7 + 5) & 255 for i in range(300))]
+EKM_LENGTHS = [1, 32, 33, 100]
+EKM_CTX_NAMES = ["absent (nil)", "EMPTY (zero-length, not nil)", "1 byte", "32 bytes", "300 bytes"]
+SHA384_SUITES = (0x009d, 0xc030, 0xc02c)
+
+
+def _sm3_py(msg):
+    """SM3 (GM/T 0004) in plain python, used when hashlib has no sm3"""
+    rol = lambda x, n: ((x << (n % 32)) | (x >> (32 - n % 32))) & 0xffffffff if n % 32 else x
+    p0 = lambda x: x ^ rol(x, 9) ^ rol(x, 17)
+    p1 = lambda x: x ^ rol(x, 15) ^ rol(x, 23)
+    v = [0x7380166f, 0x4914b2b9, 0x172442d7, 0xda8a0600, 0xa96f30bc, 0x163138aa, 0xe38dee4d, 0xb0fb0e4e]
+    m = msg + b"\x80" + b"\x00" * ((55 - len(msg)) % 64) + (8 * len(msg)).to_bytes(8, "big")
+    for o in range(0, len(m), 64):
+        w = [int.from_bytes(m[o + 4 * i:o + 4 * i + 4], "big") for i in range(16)]
+        for j in range(16, 68):
+            w.append(p1(w[j - 16] ^ w[j - 9] ^ rol(w[j - 3], 15)) ^ rol(w[j - 13], 7) ^ w[j - 6])
+        a, b, c, d, e, f, g, h = v
+        for j in range(64):
+            t = 0x79cc4519 if j < 16 else 0x7a879d8a
+            ss1 = rol((rol(a, 12) + e + rol(t, j)) & 0xffffffff, 7)
+            ss2 = ss1 ^ rol(a, 12)
+            ff = (a ^ b ^ c) if j < 16 else ((a & b) | (a & c) | (b & c))
+            gg = (e ^ f ^ g) if j < 16 else ((e & f) | (~e & g & 0xffffffff))
+            tt1 = (ff + d + ss2 + (w[j] ^ w[j + 4])) & 0xffffffff
+            tt2 = (gg + h + ss1 + w[j]) & 0xffffffff
+            a, b, c, d, e, f, g, h = tt1, a, rol(b, 9), c, p0(tt2), e, rol(f, 19), g
+        v = [x ^ y for x, y in zip(v, (a, b, c, d, e, f, g, h))]
+    return b"".join(x.to_bytes(4, "big") for x in v)
+
+
+def _hash(name):
+    import hashlib
+    if name == "sm3":
+        try:
+            hashlib.new("sm3", b"")
+        except Exception:
+            return _sm3_py, 64
+        return (lambda m: hashlib.new("sm3", m).digest()), 64
+    return (lambda m: hashlib.new(name, m).digest()), (128 if name == "sha384" else 64)
+
+
+def _hmac(name, key, msg):
+    """RFC 2104, written out (no use of the hmac module's digest plumbing, so the plain-python SM3 fits too)"""
+    h, block = _hash(name)
+    if len(key) > block:
+        key = h(key)
+    key = key + b"\x00" * (block - len(key))
+    return h(bytes(x ^ 0x5c for x in key) + h(bytes(x ^ 0x36 for x in key) + msg))
+
+
+def _p_hash(name, secret, seed, n):
+    out, a = b"", seed
+    while len(out) < n:
+        a = _hmac(name, secret, a)
+        out += _hmac(name, secret, a + seed)
+    return out[:n]
+
+
+def _prf(vers, suite, secret, label, seed, n):
+    if vers == 0x0101:
+        return _p_hash("sm3", secret, label + seed, n)
+    if vers == 0x0303:
+        return _p_hash("sha384" if suite in SHA384_SUITES else "sha256", secret, label + seed, n)
+    half = (len(secret) + 1) // 2  # RFC 2246 section 5: P_MD5(S1, ..) xor P_SHA-1(S2, ..)
+    a = _p_hash("md5", secret[:half], label + seed, n)
+    b = _p_hash("sha1", secret[len(secret) - half:], label + seed, n)
+    return bytes(x ^ y for x, y in zip(a, b))
+
+
+def _ekm(vers, suite, ms, cr, sr, label, context, n):
+    seed = cr + sr
+    if context is not None:
+        seed += len(context).to_bytes(2, "big") + context
+    return _prf(vers, suite, ms, label, seed, n)
+
+
+def _ekm_grid(vers, suite, ms, cr, sr):
+    """[(label index, context index, length, bytes)] in the driver's order"""
+    return [(li, ci, n, _ekm(vers, suite, ms, cr, sr, l, c, n))
+            for li, l in enumerate(EKM_LABELS) for ci, c in enumerate(EKM_CONTEXTS) for n in EKM_LENGTHS]
+
+
 # measured while a check runs (reported through evidence_extra())
-DECODED = {"connections": 0, "records": 0, "bytes": 0}
+DECODED = {"connections": 0, "records": 0, "bytes": 0, "exporters": 0, "exports": 0}
 
 
 def nontrivial(f):
@@ -196,12 +291,28 @@ def same(f, io, mo):
         if f[11] != "gg":
             return io[2] == mo[2] and more_i == more_m
         return (io[2], io[3], io[5], io[6], more_i) == (mo[2], mo[3], mo[5], mo[6], more_m)
+    if f[0] == "K":
+        # the extracted model gives every context at one label and one length (rotating with the case number)
+        if len(io) < 2 or len(mo) < 2 or io[0] != "ok" or mo[0] != "ok":
+            return False
+        li, ni = int(f[1]) % 3, int(f[1]) % 4
+        per_ctx = sum(EKM_LENGTHS)
+        picked = ""
+        for ci in range(len(EKM_CONTEXTS)):
+            off = (li * len(EKM_CONTEXTS) + ci) * per_ctx + sum(EKM_LENGTHS[:ni])
+            picked += io[1][2 * off:2 * (off + EKM_LENGTHS[ni])]
+        return picked == mo[1]
     return io == mo
 
 
 def evidence_extra(wd):
     """measured coverage of the independent decoder, merged into the evidence by verif.py"""
-    return {"independently_decoded_connections": DECODED["connections"],
+    return {"independently_recomputed_exporters": DECODED["exporters"],
+            "independently_recomputed_exports": DECODED["exports"],
+            "independent_exporter": "checks/c06.py: RFC 5705 section 4 over P_SM3 / P_SHA256 / P_SHA384 / the MD5-SHA1 PRF with hashlib's "
+                                    "hash functions, from the key-logged master secret and the hello randoms read off the wire; for GMSSL "
+                                    "also the extracted Coq model (Agree/KeyModel.v ekmFromMasterSecret_bytes over SM3/HMACSpec.v)",
+            "independently_decoded_connections": DECODED["connections"],
             "independently_decoded_records": DECODED["records"],
             "independently_decoded_bytes": DECODED["bytes"],
             "independent_decoder": "extracted Coq specification: key block from the key-logged master secret (Agree/KeyModel.v P_hash over "
@@ -217,6 +328,26 @@ def predicate(f, io):
             return False, "captured GMSSL connection did not complete: " + " ".join(io)[:160]
         want = [_digest(_payload(int(f[3]), 1, int(f[4]))), _digest(_payload(int(f[3]), 2, int(f[5])))]
         return (io[1:3] == want), "application data differs from what was written"
+    if f[0] == "K":
+        if io[0] != "ok" or len(io) < 2:
+            return False, "exported keying material not produced: " + " ".join(io)[:160]
+        vers, suite = int(f[2], 16), int(f[3], 16)
+        try:
+            got = bytes.fromhex(io[1])
+        except ValueError:
+            return False, "an export was refused or malformed: " + io[1][:80]
+        pos = 0
+        for li, ci, n, want in _ekm_grid(vers, suite, bytes.fromhex(f[4]), bytes.fromhex(f[5]), bytes.fromhex(f[6])):
+            if got[pos:pos + n] != want:
+                return False, ("ExportKeyingMaterial(label %r, context %s, %d) on a %04x/%04x connection gave %s..., RFC 5705 with "
+                               "the connection's master secret and randoms gives %s..."
+                               % (EKM_LABELS[li].decode()[:24], EKM_CTX_NAMES[ci], n, vers, suite, got[pos:pos + n][:8].hex(), want[:8].hex()))
+            pos += n
+        if pos != len(got):
+            return False, "exported keying material has %d bytes, the grid has %d" % (len(got), pos)
+        DECODED["exporters"] += 1
+        DECODED["exports"] += len(EKM_LABELS) * len(EKM_CONTEXTS) * len(EKM_LENGTHS)
+        return True, ""
     c = _cfg(f)
     cls = io[1] if len(io) > 1 else "?"
     if cls not in ("C", "E"):
@@ -235,7 +366,8 @@ def predicate(f, io):
         return False, ("negotiated suite %04x is not the first acceptable entry of the %s's list (%04x)"
                        % (suite, "server" if c["prefer"] else "client", _expected_suite(c) or 0))
     if ekmeq != "1":
-        return False, "the two ends export different keying material"
+        return False, ("the two ends export different keying material (ExportKeyingMaterial over 3 labels x contexts absent / EMPTY / 1 / "
+                       "32 / 300 bytes x lengths 1, 32, 33, 100)")
     want_pcc = "gm" if c["kind"] == "g" else "rsa"
     want_pcs = "-" if (c["auth"] == 0 or c["ccert"] == "n") else c["ccert"]
     if pcc != want_pcc or pcs != want_pcs:
